@@ -8,6 +8,9 @@ Line-protocol front end of the C17 model.
 
   `sess <ops> (<nodes> <table>)*`  →  `ok <guards> <ncodes nblobs> <result>*`   (a history of calls, see "sessions" below)
   `sanitize <hex>`  →  `<hex of sanitize> <validStr>`
+  `ord <perm> <nodes> <table>`  →  `ok <reload of the marshalled state with its code list in the order perm: ok | err:…>
+                             <childBeforeParent of that list> <id of the entry point (hex) | -> <ids of the list in file order>
+                             <ids of the tree in Flatten order>`   (see "order of the serialised code list" in Props)
 
 `<nodes>`/`<table>` are space-separated token streams (strings in hex, `-` = empty):
   nodes := N count node*
@@ -322,6 +325,18 @@ def handle : List String → String
         b01 (NamedConsistent p) ++ b01 (ValidUtf8Consts p) ++ b01 (CompileNames p) ++ b01 (HasMainFn p))
       "ok\t" ++ guards ++ "\t" ++ toString out.1.codes.length ++ " " ++ toString out.1.blobs.length
         ++ String.join (out.2.map fun r => "\t" ++ showRes r)
+    | _, _ => "error\tbad-request"
+  | ["ord", perm, nodes, table] =>
+    match (splitToks perm).mapM String.toNat?, parseProg nodes table with
+    | some ord, some p =>
+      let w := (marshal p).reorder ord
+      let ids := fun (l : List Bytes) => if l.isEmpty then "-" else " ".intercalate (l.map toHexField)
+      let tail := "\t" ++ ids (decodeState w).codeIds ++ "\t" ++ ids (flattenIds p)
+      let cbp := b01 (decodeState w).childBeforeParent
+      match unmarshal w with
+      | .error e => "ok\terr:" ++ errName e ++ "\t" ++ cbp ++ "\t-" ++ tail
+      | .ok q =>
+        "ok\tok\t" ++ cbp ++ "\t" ++ (match q.nodes.head? with | some n => toHexField n.id | none => "-") ++ tail
     | _, _ => "error\tbad-request"
   | ["sanitize", s] =>
     match fromHex s with
